@@ -28,6 +28,8 @@ def run(w: World, rep: Report):
     rep.check('C03.R3', f'functions.{fi.name}|three-one-byte-operands', ok, line=fi.node.lineno, file=REL,
               why='' if ok else 'OP_CHECK_MULTISIG does not read three one-byte operands')
     if not ok:
+        for r in ('C03.R1', 'C03.R2', 'C03.R3', 'C03.R4'):
+            rep.rules[r]['floor'] = 0
         return
     r_flags, r_m, r_n = reads[0]
     # which locals hold m and n
@@ -56,6 +58,8 @@ def run(w: World, rep: Report):
               why='' if ok else f'items are popped as {[(p[0], p[1]) for p in pops]}; expected n keys (third operand) then '
               f'm signatures (second operand)')
     if not ok:
+        for r in ('C03.R1', 'C03.R2', 'C03.R3', 'C03.R4'):
+            rep.rules[r]['floor'] = 0      # the remaining rules need the (keys, signatures) lists identified
         return
     keys_var, sigs_var = pops[0][0], pops[1][0]
     # decompiler prints in read order; compiler emits in source order
